@@ -598,12 +598,14 @@ Definition exec (d : bool) {A} (o : op A) (s : st) : res A :=
     if 8 * s_srclen s + 64 <? i then Done true (s <| s_iters := i |> <| s_aborted := true |>)
     else Done false (s <| s_iters := i |>)
   | OLoopDetect =>
-    if d then
-      let ns := (c_rem (s_cur s), s_modes s) in
-      if (fst (s_last_state s) =? fst ns) && modes_eqb (snd (s_last_state s)) (snd ns)
-      then Done true ((emit_error s E_InternalErrorInfiniteLoop) <| s_loop_detected := true |>)
-      else Done false (s <| s_last_state := ns |>)
-    else Done false s
+    (* [last_state] exists only in debug builds; in the model it is also maintained (as a
+       ghost that nothing can observe) when [d] is off, so that the two profiles run on
+       identical states *)
+    let ns := (c_rem (s_cur s), s_modes s) in
+    let fired := (fst (s_last_state s) =? fst ns) && modes_eqb (snd (s_last_state s)) (snd ns) in
+    if d && fired
+    then Done true ((emit_error s E_InternalErrorInfiniteLoop) <| s_loop_detected := true |>)
+    else Done false (s <| s_last_state := ns |>)
   | OFinalEOF =>
     (* the tail of finalize_lexing: EOF token at the cursor on the last line *)
     let s := note_observe_lines s in
